@@ -43,8 +43,8 @@ type PoolCfg struct {
 }
 
 type HOp struct {
-	K     string `json:"k"` // disc req rel dec age clean vlan
-	C     int    `json:"c"` // client index
+	K     string `json:"k"`                // disc req rel dec age clean vlan
+	C     int    `json:"c"`                // client index
 	ReqIP string `json:"req_ip,omitempty"` // req/dec: option 50 ("" = the address offered to / held by the client)
 	Relay bool   `json:"relay,omitempty"`
 	Cid   []byte `json:"cid,omitempty"`
@@ -54,11 +54,11 @@ type HOp struct {
 }
 
 type Probe struct {
-	Frame []byte `json:"frame"`
-	Route string `json:"route"`          // "k": kernel test-run (+ native replay with the same clock); "n": native only
-	Now   uint64 `json:"now,omitempty"`  // route n: absolute ktime (ns) when NowRel is ""
+	Frame  []byte `json:"frame"`
+	Route  string `json:"route"`             // "k": kernel test-run (+ native replay with the same clock); "n": native only
+	Now    uint64 `json:"now,omitempty"`     // route n: absolute ktime (ns) when NowRel is ""
 	NowRel string `json:"now_rel,omitempty"` // route n: "exp-1" | "exp" | "exp+1": seconds relative to the client's lease_expiry
-	C     int    `json:"c"`              // client the frame was generated for (tags only)
+	C      int    `json:"c"`                 // client the frame was generated for (tags only)
 }
 
 type RawMaps struct { // raw mode: map contents written by the harness
@@ -90,8 +90,8 @@ type env struct {
 	nat *bpfrun.Native
 	// evidence counters
 	kernelRuns, nativeRuns, kvCompared, kvDisagree, faults int
-	disagreeNote                                            string
-	slowReplies, slowSilent                                 int
+	disagreeNote                                           string
+	slowReplies, slowSilent                                int
 }
 
 func must(err error) {
@@ -107,13 +107,15 @@ func monoNow() uint64 {
 	return uint64(ts.Sec)*1000000000 + uint64(ts.Nsec)
 }
 
-func clientMAC(i int) net.HardwareAddr { return net.HardwareAddr{0x02, 0x00, 0x5e, 0x10, 0x00, byte(0x11 + i)} }
+func clientMAC(i int) net.HardwareAddr {
+	return net.HardwareAddr{0x02, 0x00, 0x5e, 0x10, 0x00, byte(0x11 + i)}
+}
 
 // ---------------------------------------------------------------- frame builder
 
 type FrameSpec struct {
-	Tags     int    // 0, 1 (802.1Q), 2 (802.1ad + 802.1Q), 3 (802.1Q + 802.1Q)
-	OuterAD  bool   // single tag with TPID 0x88a8
+	Tags     int  // 0, 1 (802.1Q), 2 (802.1ad + 802.1Q), 3 (802.1Q + 802.1Q)
+	OuterAD  bool // single tag with TPID 0x88a8
 	STag     uint16
 	CTag     uint16
 	IHL      int
@@ -286,10 +288,10 @@ type world struct {
 	pm      *dhcp.PoolManager
 	srv     *dhcp.Server
 	pool    *dhcp.Pool
-	events  []string          // Coq gev terms
-	status  map[string]int    // MAC string -> 3 released / 4 declined / 2 expired (removed by cleanup)
-	cstatus map[string]int    // hex(circuit-id) -> same
-	offered map[int]net.IP    // client -> last address offered/acked
+	events  []string       // Coq gev terms
+	status  map[string]int // MAC string -> 3 released / 4 declined / 2 expired (removed by cleanup)
+	cstatus map[string]int // hex(circuit-id) -> same
+	offered map[int]net.IP // client -> last address offered/acked
 	aged    int
 }
 
@@ -496,9 +498,9 @@ func (e *env) build(c Case) *world {
 
 // slowview: what the real server does with this frame in the current state (the state is consumed)
 type slowView struct {
-	Kind, Status                   int
-	Yi, Sid, Mask, Router, DNS     []byte
-	Lease                          uint32
+	Kind, Status               int
+	Yi, Sid, Mask, Router, DNS []byte
+	Lease                      uint32
 }
 
 func (w *world) slow(f []byte) slowView {
@@ -642,7 +644,9 @@ func (d dump) coqMaps(origin int) string {
 		coqKV(d.m[0]), coqKV(d.m[1]), coqKV(d.m[2]), coqKV(d.m[3]), vh.Bytes(d.cfg), origin)
 }
 
-func rev4(b []byte, off int) { b[off], b[off+1], b[off+2], b[off+3] = b[off+3], b[off+2], b[off+1], b[off] }
+func rev4(b []byte, off int) {
+	b[off], b[off+1], b[off+2], b[off+3] = b[off+3], b[off+2], b[off+1], b[off]
+}
 
 // netOrder rewrites every IPv4 word of the maps into network byte order (what the C reads them as)
 func (d dump) netOrder() dump {
